@@ -21,7 +21,7 @@ pub static PROP: Prop = Prop {
     rule: "codeword level: valid codeword vectors (reference encoder) of all 48 sizes corrupted in <= floor(k/2) codewords per interleaved block - enumerated: every single position of every size with 2-3 error values; generated: per block weight in {0,1,t-1,t}, positions stratified over data region / EC region / mixed / last EC codeword - decode_error must return Ok and restore the complete vector; pixel level: encoded messages rendered, 1-8 modules of <= t codewords per block flipped (module addresses from the independent Annex F placement), DataMatrix::decode must return the message; non-trivial = some block carries exactly t errors OR an error lies in the EC region of a block >= 1 OR the size has odd k; distinct by (size, original, received)",
     assumptions: &["block structure from R6, codewords built with the reference RS encoder R4", "module addresses of codewords from R5"],
     extra: super::no_extra,
-    fuzz_runs: 30000,
+    fuzz_runs: 100000,
 };
 
 pub fn check_word(c: &RsCase) -> Verdict {
